@@ -262,23 +262,24 @@ def exec_bep(case):
             evs.append({'ev': 'bep', 'desc': desc, 'dir': d, 'units': u, 'slope': to_dec(slope), 'icpt': to_dec(icpt),
                         'D': to_dec(D), 'uf': to_dec(c.convert_unit(initial=kc, final=u)), 'val': to_dec(v)})
     # difference forward - reverse (kcal/mol, cal/mol, dimensionless: forms whose unit factors are one table)
-    dH = _call(evs, 'get_delta_H', lambda: rx.get_delta_H(units=kc, T=T))
-    dE = _call(evs, 'get_delta_E', lambda: rx.get_delta_E(units=kc, T=T)) if kinds == ['statmech'] else 0.0
+    has_E = kinds == ['statmech']
     for form in ('kcal/mol', 'cal/mol', 'dimless'):
-        if dH is None or dE is None:
-            break
         if form == 'dimless':
-            f = 1.0 / (c.R('kcal/mol/K') * T)
+            dH = _call(evs, 'get_delta_HoRT', lambda: rx.get_delta_HoRT(T=T))
+            dE = _call(evs, 'get_delta_EoRT', lambda: rx.get_delta_EoRT(T=T)) if has_E else 0.0
             ef = _call(evs, 'BEP.get_EoRT_act', lambda: b.get_EoRT_act(reaction=rx, rev=False, T=T))
             er = _call(evs, 'BEP.get_EoRT_act', lambda: b.get_EoRT_act(reaction=rx, rev=True, T=T))
         else:
-            f = 1000.0 if form == 'cal/mol' else 1.0
+            dH = _call(evs, 'get_delta_H', lambda: rx.get_delta_H(units=form, T=T))
+            dE = _call(evs, 'get_delta_E', lambda: rx.get_delta_E(units=form, T=T)) if has_E else 0.0
             ef = _call(evs, 'BEP.get_E_act', lambda: b.get_E_act(units=form, reaction=rx, rev=False, T=T))
             er = _call(evs, 'BEP.get_E_act', lambda: b.get_E_act(units=form, reaction=rx, rev=True, T=T))
+        if dH is None or dE is None:
+            continue
         if ef is None or er is None:
             continue
         evs.append({'ev': 'bepdiff', 'desc': desc, 'form': form, 'ef': to_dec(ef), 'er': to_dec(er),
-                    'dH': to_dec(dH * f), 'dE': to_dec(dE * f)})
+                    'dH': to_dec(dH), 'dE': to_dec(dE)})
         # via the reaction's transition-state enthalpy
         for d, rev, direct in (('fwd', False, ef), ('rev', True, er)):
             init = 'products' if rev else 'reactants'
@@ -299,7 +300,7 @@ def exec_bep(case):
             evs.append({'ev': 'bepvia', 'desc': desc, 'dir': d, 'form': form, 'direct': to_dec(direct),
                         'via': to_dec(via), 'hts': to_dec(hts), 'hinit': to_dec(hin)})
     # internal energy and enthalpy offsets (species with an internal energy only)
-    if kinds == ['statmech']:
+    if has_E:
         for form in ('dimless', 'kcal/mol', 'J/mol'):
             if form == 'dimless':
                 uts = _call(evs, 'BEP.get_UoRT', lambda: b.get_UoRT(reaction=rx, T=T))
@@ -446,9 +447,12 @@ def exec_site(case):
             mism.append({'getter': 'gas_phase', 'tlc': case['gas'], 'code': bool(rx.gas_phase)})
     tags = {'cls': cls, 'n': n, 'gas': all_gas, 'ts': 'species' if has_ts else 'none'}
     # A is defined by the property for gas-phase reactions (no site density) and for >= 1 surface reactant
-    if (n == 0 and not all_gas) or (cls == 'SurfaceReaction' and n == 0):
-        tags['skipped'] = 'no surface reactant in a surface reaction'
+    # and, for positivity only, for Chemkin surface reactions without an adsorbed reactant;
+    # SurfaceReaction.get_A documents a ValueError when no reactant has a site density
+    if cls == 'SurfaceReaction' and n == 0:
+        tags['skipped'] = 'SurfaceReaction without surface reactant: documented ValueError'
         return evs, mism, tags
+    tags['nosite'] = (n == 0 and not all_gas)
     for op in (L.SDEN_OPS if case.get('all_ops', True) else [rnd.choice(L.SDEN_OPS)]):
         units = rnd.choice(L.A_UNITS)
         if has_ts and rnd.random() < 0.75:
@@ -580,6 +584,8 @@ def _nontrivial(case, events):
 
 def _tags_of_event(case, ctags, e):
     t = {'kind': case['kind'], 'cls': e.get('cls', ctags.get('cls')), 'ts': ctags.get('ts')}
+    if ctags.get('nosite'):
+        t['nosite'] = True
     for k in ('q', 'dir', 'desc', 'route', 'op', 'fn'):
         if k in e:
             t[k] = e[k]
@@ -601,13 +607,21 @@ def run(ctx):
     if ctx.replay_case is not None:
         cases = [ctx.replay_case['case']]
     else:
-        ctx.model('MC_Kinetics', 'MC_Kinetics')
-        for cfg, inv in (('MC_Kinetics_droprev', 'ClampRefines'), ('MC_Kinetics_urev', 'BepUandHSameBarrier')):
-            r = ctx.model('MC_Kinetics', cfg, expect_ok=False)
-            if r.violated != inv:
-                raise core.MachineryError('variant %s should be rejected by %s, TLC said: %s\n%s'
-                                          % (cfg, inv, r.violated, r.out[-2000:]))
-        data, r = core.tlc_cases('MC_KineticsCases', 'MC_KineticsCases')
+        # the four TLC runs are independent: run them side by side
+        import concurrent.futures as cf
+        with cf.ThreadPoolExecutor(max_workers=4) as ex:
+            f_main = ex.submit(ctx.model, 'MC_Kinetics', 'MC_Kinetics', 6)
+            f_var = [(cfg, inv, ex.submit(ctx.model, 'MC_Kinetics', cfg, 3, False))
+                     for cfg, inv in (('MC_Kinetics_droprev', 'ClampRefines'),
+                                      ('MC_Kinetics_urev', 'BepUandHSameBarrier'))]
+            f_cases = ex.submit(core.tlc_cases, 'MC_KineticsCases', 'MC_KineticsCases')
+            f_main.result()
+            for cfg, inv, f in f_var:
+                r = f.result()
+                if r.violated != inv:
+                    raise core.MachineryError('variant %s should be rejected by %s, TLC said: %s\n%s'
+                                              % (cfg, inv, r.violated, r.out[-2000:]))
+            data, r = f_cases.result()
         ctx.coverage.setdefault('models', []).append(
             {'module': 'MC_KineticsCases', 'cfg': 'MC_KineticsCases', 'ok': r.ok,
              'assumes': ['SiteOK', 'RevViaHolds = {delta_H, rev_delta_H} (computed over all BEP configurations)',
